@@ -31,10 +31,13 @@ def experiment_level(ctx, nexp, nconf):
     specs = [dict(envs=[["group", 0, 0], ["group", 0, 1]], lrns=[["info"], ["count", 1]], vals=[["rej"], ["seq"]], groups=[dict(n=8, seed=3, prefix="chunk", fan=2, logged=True)],
                   triples=[[0, 0, 0], [0, 0, 1], [1, 1, 1], [1, 0, 1], [0, 1, 0]])]
     specs.append(dict(envs=[["slow", 5, 3, 0.4], ["slow", 5, 4, 0.4], ["slow", 5, 5, 0.4]], lrns=[["count", 1]], vals=[["seq"]], groups=[], triples=[[0, 0, 0], [1, 0, 0], [2, 0, 0]]))
+    # two learners of one class of which only one offers score, under evaluators that ask whether a learner can score
+    specs.append(dict(envs=[["group", 0, 0], ["group", 0, 1]], lrns=[["mscore", True], ["mscore", False]], vals=[["seqips"]], groups=[dict(n=8, seed=4, prefix=None, fan=2, logged=True)],
+                      triples=[[0, 0, 0], [0, 1, 0], [1, 1, 0], [1, 0, 0]]))
     for _ in range(nexp): specs.append(expcore.gen_spec(rng))
     for si, spec in enumerate(specs):
         seed = rng.choice([1, 1, 7])
-        confs = [CONFIGS[0], CONFIGS[0]] + (CONFIGS[1:] if si == 0 else [(1, 1, 0), (2, 1, 1)] if si == 1 else rng.sample(CONFIGS[1:], min(nconf, len(CONFIGS) - 1)))
+        confs = [CONFIGS[0], CONFIGS[0]] + (CONFIGS[1:] if si in (0, 2) else [(1, 1, 0), (2, 1, 1)] if si == 1 else rng.sample(CONFIGS[1:], min(nconf, len(CONFIGS) - 1)))
         for ci, (p, mc, mt) in enumerate(confs):
             jobs.append(dict(spec=spec, p=p, mc=mc, mt=mt, seed=seed)); index.append((si, ci, (p, mc, mt)))
     done, hung, err = expcore.run_jobs(jobs, "c01")
